@@ -5,12 +5,16 @@
    `get_solution` (what the returned object holds: SolCopy = deep copies, SolBestAlias = the best_nets object
    + live conditions, SolLive = the live objects).  Part 1 is for arbitrary scalars / networks / conditions /
    coordinate tensors of any shape; part 2 for arbitrary components, callbacks and later op sequences.
+   Tie to the source: the C06_gen_* theorems state that the shape logic GENERATED from BaseSolution.__call__
+   (coq/gen/Gen_C04.v, regenerated on every run by tools/props/t_C04.py: first coordinate's shape, reshape(-1, 1),
+   zip(conditions, nets) pairing, reshape back unless no_reshape, single-vs-list) equals the model's.
    Modelled, not verified: copy.deepcopy yields an independent equal value; the solver REBINDS best_nets and
    never mutates the old object (checked by the correspondence run: interleavings of get_solution with fit and
    with in-place mutation of live weights and condition attributes). *)
 From Coq Require Import List Arith Bool Lia.
 From ND.model Require Import Solver.
-From ND.proofs Require Import C15_base C06_solution.
+From ND.gen Require Import Gen_C04.
+From ND.proofs Require Import C15_base C05_best C06_solution C04_gen.
 Import ListNotations.
 
 Section P_C06_call.
@@ -71,6 +75,39 @@ Section P_C06_call.
         tdata (nth i ts dt) = nth i rs dr /\ tshape (nth i ts dt) = out_shape S nr c0 (nth i rs dr).
   Proof. exact (residuals_spec S N Cd enforce_col diff_eqs). Qed.
 End P_C06_call.
+
+Section P_C06_gen.
+  Variable S : Type.
+
+  Theorem C06_gen_original_shape : forall (c0 : tensor S) (rest : list (tensor S)),
+    gen_original_shape (map tshape (c0 :: rest)) = Some (tshape c0).
+  Proof. exact (gen_original_shape_is_model S). Qed.
+
+  Theorem C06_gen_col_shapes : forall (coords : list (tensor S)),
+    Forall (fun c => numel (tshape c) = length (tdata c)) coords ->
+    gen_col_shapes (map tshape coords) = map (fun c => [length (tdata c); 1]) coords.
+  Proof. exact (gen_col_shapes_is_model S). Qed.
+
+  Theorem C06_gen_out_shapes : forall (nr : bool) (c0 : tensor S) (us : list (list S)),
+    option_map (map (@tshape S)) (mapM (shape_col S nr c0) us) =
+    gen_out_shapes nr (tshape c0) (map (fun u => [length u; 1]) us).
+  Proof. exact (gen_out_shapes_is_model S). Qed.
+
+  Theorem C06_gen_pack : forall (N : Type) (nets : list N) (ts : list (tensor S)),
+    pack (length nets) ts =
+    match gen_pack nets ts with
+    | Some (inl l) => Some (Many l)
+    | Some (inr t) => Some (One t)
+    | None => None
+    end.
+  Proof. exact (@gen_pack_is_model S). Qed.
+
+  Theorem C06_gen_us : forall (N Cd : Type) (enforce_col : Cd -> N -> list (list S) -> option (list S))
+      (cds : list Cd) (nets : list N) (cols : list (list S)),
+    mapM (fun u => u) (gen_us (fun n c x => enforce_col c n x) cds nets cols) =
+    mapM (fun cn => enforce_col (fst cn) (snd cn) cols) (combine cds nets).
+  Proof. exact (@gen_us_is_model S). Qed.
+End P_C06_gen.
 
 Section P_C06.
   Variables P G B V O C : Type.
